@@ -206,7 +206,10 @@ class C19(Check):
                             return ({"kind": "stat", "test": "exp-length", "CR": CR, "n_var": v, "observed": obs_.tolist(), "expected": exp.tolist()}, {}, "C19-stat: exponential block length is not geometric in CR truncated at n_var (CR=%.2f n_var=%d, p=%.1e)" % (CR, v, pv)), None, n_cases
             for lo, hi in ((0.0, 1.0), (0.5, 1.0), (0.2, 2.5)):
                 n_cases += 1
-                F = DEM(F=(lo, hi))._randomize_scale_factor(100000)
+                # through the documented entry point only: X1 - X2 = 1 in one coordinate, base 0, no jitter, so the mutant IS the factor
+                n = 100000; X = np.zeros((3, n, 1)); X[1] = 1.0
+                V = DEM(F=(lo, hi), gamma=None, n_diffs=1).de_mutation(X.copy()); V = V[0] if isinstance(V, tuple) else V
+                F = np.asarray(V, dtype=float).ravel()
                 pv = stats.kstest((F - lo) / (hi - lo), "uniform").pvalue
                 if pv < alpha or F.min() < lo or F.max() > hi:
                     return ({"kind": "stat", "test": "dither", "range": [lo, hi]}, {}, "C19-stat: dithered scale factor is not uniform over [%r, %r] (KS p=%.1e)" % (lo, hi, pv)), None, n_cases
@@ -288,7 +291,7 @@ class C19(Check):
                 counts = np.zeros((n_pop, n_par, n_pop))
                 sel = DES(variant)
                 for _ in range(reps):
-                    P = np.asarray(sel._do(prob, pop, n_pop, n_par))
+                    P = np.asarray(sel.do(prob, pop, n_pop, n_par, to_pop=False))
                     for c in range(n_par):
                         counts[np.arange(n_pop), c, P[:, c]] += 1
                 for i in range(n_pop):
